@@ -365,6 +365,17 @@ func (env *SpecEnv) locOf(x *SExpr) (keys []string, ref string, err error) {
 	if x.Op == "call" && x.Args[0].Op == "id" && x.Args[0].Tok == "ghost" && len(x.Args) == 2 {
 		return []string{"X:" + x.Args[1].String()}, "*", nil
 	}
+	if x.Op == "call" && x.Args[0].Op == "id" && x.Args[0].Tok == "entries" && len(x.Args) == 2 {
+		// all entries of one map
+		m, err := env.eval(x.Args[1])
+		if err != nil {
+			return nil, "", err
+		}
+		if _, ok := m.T.Underlying().(*types.Map); !ok {
+			return nil, "", fmt.Errorf("modifies %s: not a map", x)
+		}
+		return mapKeys(m.T), m.S, nil
+	}
 	switch x.Op {
 	case "sel":
 		if _, ok := e.L.specs.Ghosts[x.Tok]; ok {
